@@ -3,6 +3,7 @@
 package main
 
 import (
+	"bytes"
 	"fmt"
 	"math/big"
 	"strings"
@@ -308,7 +309,8 @@ func genC16(c *Ctx) {
 	ph := popHasher()
 	keys := c.blsKeys(nKeys)
 	tags := []string{"", "A", "BLS_POP_", "BLS_POP_BLS12381G1_XOF:KMAC128_SSWU_RO_POP_", "BLS_SIG_", "BLS_POP_BLS12381G1_XOF:KMAC128_SSWU_RO_POP_BLS_SIG_BLS12381G1_XOF:KMAC128_SSWU_RO_POP_", string(c.bytes(1024)),
-		"BLS_P", "_"}
+		"BLS_P", "_", "BLS12381G1_XOF:KMAC128_SSWU_RO_POP_", "BLS_SIG_BLS12381G1_XOF:KMAC128_SSWU_RO_POP_", "POP_", "RO_POP_", "BLS_POP_BLS12381G1_XOF:KMAC128_SSWU_RO_",
+		"xBLS_POP_BLS12381G1_XOF:KMAC128_SSWU_RO_POP_", "BLS_POP_BLS12381G1_XOF:KMAC128_SSWU_RO_POP_x"}
 	for ki, key := range keys {
 		pkb := key.pk.Encode()
 		hpop := hashPoint(pkb, ph)
@@ -336,6 +338,12 @@ func genC16(c *Ctx) {
 			sig, _ := key.sk.Sign(pkb, th)
 			c.Case("sig-as-pop", "bls.verify "+ks+" "+hx(hpop)+" "+hx(sig), guard(func() string { return boolAns(crypto.BLSVerifyPOP(key.pk, sig)) }))
 			c.Case("pop-as-sig", "bls.verify "+ks+" "+hx(hashPoint(pkb, th))+" "+hx(pop), guard(func() string { return boolAns(key.pk.Verify(pop, pkb, th)) }))
+			// domain separation stated outright (the model only sees the hash points the implementation's hashers produce):
+			// under no application tag is a signature of the key bytes a PoP, nor the PoP a signature, and the two
+			// hash-to-curve images of the key bytes differ
+			c.Case("sig-as-pop-direct", "expect false #", guard(func() string { return boolAns(crypto.BLSVerifyPOP(key.pk, sig)) }))
+			c.Case("pop-as-sig-direct", "expect false #", guard(func() string { return boolAns(key.pk.Verify(pop, pkb, th)) }))
+			c.Case("pop-hash-point-distinct", "expect true #", fmt.Sprint(!bytes.Equal(hashPoint(pkb, th), hpop) && !bytes.Equal(sig, pop)))
 		}
 	}
 	inf := make([]byte, 48)
